@@ -92,8 +92,8 @@ CHECKS["C15"] = {
     "units": [
         unit("./internal", CORE_FILES, "^Harness_C15_Reverse_n[1-4]$", QT, flags={"labels": "^C15:"}),
         unit("./internal", CORE_FILES, "^Harness_C15_Reverse_n[56]$", T, flags={"labels": "^C15:"}),
-        unit("./internal/controller/ledger", ["ctrl/dbmodel.go", "ctrl/lib.go", "ctrl/c25.go", "ctrl/ops.go", "ctrl/ops_gen.go", "ctrl/revert.go", "ctrl/revert_gen.go", "ctrl/refreplay.go", "ctrl/events.go", "ctrl/events_gen.go", "ctrl/c36.go", "ctrl/c28.go"], "^Harness_REVC_", QT, flags={"labels": "^C15:", "max-decisions": 4000}, reach=["end"]),
-        unit("./internal/controller/ledger", ["ctrl/dbmodel.go", "ctrl/lib.go", "ctrl/c25.go", "ctrl/ops.go", "ctrl/ops_gen.go", "ctrl/revert.go", "ctrl/revert_gen.go", "ctrl/refreplay.go", "ctrl/events.go", "ctrl/events_gen.go", "ctrl/c36.go", "ctrl/c28.go"], "^Harness_REVS_", QT, flags={"labels": "^C15:", "max-decisions": 4000}, reach=["end"]),
+        unit("./internal/controller/ledger", ["ctrl/dbmodel.go", "ctrl/lib.go", "ctrl/c25.go", "ctrl/ops.go", "ctrl/ops_gen.go", "ctrl/revert.go", "ctrl/revert_gen.go", "ctrl/refreplay.go", "ctrl/events.go", "ctrl/events_gen.go", "ctrl/c36.go", "ctrl/c28.go", "ctrl/schema.go"], "^Harness_REVC_", QT, flags={"labels": "^C15:", "max-decisions": 4000}, reach=["end"]),
+        unit("./internal/controller/ledger", ["ctrl/dbmodel.go", "ctrl/lib.go", "ctrl/c25.go", "ctrl/ops.go", "ctrl/ops_gen.go", "ctrl/revert.go", "ctrl/revert_gen.go", "ctrl/refreplay.go", "ctrl/events.go", "ctrl/events_gen.go", "ctrl/c36.go", "ctrl/c28.go", "ctrl/schema.go"], "^Harness_REVS_", QT, flags={"labels": "^C15:", "max-decisions": 4000}, reach=["end"]),
     ],
 }
 
@@ -115,13 +115,13 @@ CHECKS["C03"] = {
     ],
 }
 
-CTRL_FILES = ["ctrl/dbmodel.go", "ctrl/lib.go", "ctrl/c25.go", "ctrl/ops.go", "ctrl/ops_gen.go", "ctrl/revert.go", "ctrl/revert_gen.go", "ctrl/refreplay.go", "ctrl/events.go", "ctrl/events_gen.go", "ctrl/c36.go", "ctrl/c28.go"]
+CTRL_FILES = ["ctrl/dbmodel.go", "ctrl/lib.go", "ctrl/c25.go", "ctrl/ops.go", "ctrl/ops_gen.go", "ctrl/revert.go", "ctrl/revert_gen.go", "ctrl/refreplay.go", "ctrl/events.go", "ctrl/events_gen.go", "ctrl/c36.go", "ctrl/c28.go", "ctrl/schema.go"]
 CTRL_PKG = "./internal/controller/ledger"
 DBMODEL_ASSUME = [
     "dbmodel (harness/ctrl/dbmodel.go) stands for the SQL store below the controller's Store interface: tables as Go values, transactional write sets applied on Commit and dropped on Rollback, autocommit on a non-transactional handle, unique keys (ledger,id), (ledger,reference), (ledger,idempotency_key), (ledger,address), non-transactional sequences, 'a failed statement aborts the transaction', transaction_date() constant inside a transaction. It is trusted, not verified (no PostgreSQL in the sandbox)",
     "encoding/json is modelled as a JSON-tree (marshal/unmarshal by the documented rules, custom MarshalJSON/UnmarshalJSON executed symbolically); SHA-256 is exact on concrete content and an injective function on symbolic content",
 ]
-OPS_LIST = "23 write requests covering all 7 log processors (create via postings / script with tx+account metadata / reference conflict / metadata override / bad script / no postings / forced overdraft; revert plain / at effective date / forced / insufficient / missing; save+delete transaction metadata (present, absent target, absent key); save+delete account metadata (existing, new account); insert schema)"
+OPS_LIST = "24 write requests covering all 7 log processors (create via postings (incl. a self-posting) / script with tx+account metadata / reference conflict / metadata override / bad script / no postings / forced overdraft; revert plain / at effective date / forced / insufficient / missing; save+delete transaction metadata (present, absent target, absent key); save+delete account metadata (existing, new account); insert schema)"
 
 
 def ctrl_units(modes_q, modes_t, labels, decisions=4000):
@@ -261,5 +261,33 @@ CHECKS["C28"] = {
         unit("./internal/machine", ["machine/c28.go"], "^Harness_C28_", QT, flags={"labels": "^(C28:|no-panic)"}, reach=["end", "accepted", "rejected"]),
         {"kind": "py", "module": "c28_lexer", "pkg": "pychecks", "files": [], "run": "c28_lexer", "tiers": QT, "reach": ["end"],
          "replay_unit": unit(CTRL_PKG, CTRL_FILES, "^Replay_C28_", QT)},
+    ],
+}
+
+
+CHART_SHAPES = "charts: root {acc: node, bank: leaf}; a node has an optional fixed child 'in', an optional variable child '$id' (no pattern / ^[0-9]+$ / ^i), else a fixed child 'out', optional .self (+ .metadata); children are leaves (optional default metadata) or interior non-account segments with one leaf below"
+CHECKS["C30"] = {
+    "level": "other",
+    "explanation": "Every chart of a bounded shape family is decoded by the real ChartOfAccounts/ChartSegment.UnmarshalJSON, marshalled by the real MarshalJSON methods and decoded again (also inside the SchemaData envelope), all through the JSON-tree model; then a symbolic address (1-3 segments, each an SMT string over the segment alphabet) is classified by the real findAccountSchema against both charts: same accept/reject verdict and same default metadata before and after the round trip.",
+    "bounds": {"quick": CHART_SHAPES + "; depth 1 (the node's children are leaves); addresses of <= 3 segments of <= 3 bytes", "thorough": "depth 2 (children of the node may be nodes)"},
+    "outside": "transaction templates and query templates of a schema (compared under C37); the text layer of encoding/json and the jsonb column (the tree model assumes they preserve the tree); charts outside the family; strings.Split of the address (findAccountSchema is called with the segment list)",
+    "assumptions": COMMON_ASSUME + ["encoding/json is modelled as a JSON tree (see C07)", "regexp patterns are translated to SMT-LIB regular expressions"],
+    "units": [
+        unit("./internal", ["core/chart.go"], "^Harness_CHART_d1_", QT, flags={"labels": "^(C30:|no-panic)", "max-paths": 200000, "max-decisions": 2000}, reach=["end"]),
+        unit("./internal", ["core/chart.go"], "^Harness_CHART_d2_", T, flags={"labels": "^(C30:|no-panic)", "max-paths": 2000000, "max-decisions": 3000}, reach=["end"], timeout_s=7000),
+    ],
+}
+
+
+CHECKS["C29"] = {
+    "level": "other",
+    "explanation": "(a) Chart semantics: the real ChartOfAccounts.UnmarshalJSON + findAccountSchema against an independent declarative acceptance predicate evaluated on the JSON the chart was written in (a fixed sub-segment named like the address segment is taken, and only then; otherwise the variable sub-segment when its pattern matches; the last segment must land on an account node), for every chart of a bounded shape family and a symbolic address; the default metadata of the matched account is the reference's. (b) Enforcement: the real runLog/createTransaction/saveAccountMetadata/ValidateWithSchema/AccountsWithDefaultMetadata on the store model, enforcement mode strict/audit x schema version missing/known/unknown x transaction templates defined/used, the destination account carrying a symbolic segment: in strict mode an accepted write names an existing schema, its posting accounts are accepted by the chart, and a template is used when templates exist; a refusal carries the matching error and leaves no effect; audit mode only logs; chart default metadata is applied on the first insert of an account and never re-applied.",
+    "bounds": {"quick": CHART_SHAPES + "; depth 1; addresses of <= 3 segments of <= 3 bytes; (b) one chart (fixed, pattern-variable and nested fixed segments), 11 mode/version/template combinations", "thorough": "chart depth 2"},
+    "outside": "charts outside the family; strings.Split of the address in (a); revert / metadata-only writes under a schema other than saveAccountMetadata; the interpreter runtime",
+    "assumptions": COMMON_ASSUME + DBMODEL_ASSUME,
+    "units": [
+        unit("./internal", ["core/chart.go"], "^Harness_CHART_d1_", QT, flags={"labels": "^(C29:|no-panic)", "max-paths": 200000, "max-decisions": 2000}, reach=["end"]),
+        unit(CTRL_PKG, CTRL_FILES, "^Harness_SCHEMA_", QT, flags={"labels": "^(C29:|no-panic)", "max-decisions": 4000}, reach=["end"]),
+        unit("./internal", ["core/chart.go"], "^Harness_CHART_d2_", T, flags={"labels": "^(C29:|no-panic)", "max-paths": 2000000, "max-decisions": 3000}, reach=["end"], timeout_s=7000),
     ],
 }
